@@ -108,7 +108,11 @@ def layouts(little_endian, elfclass, e_type, e_machine, osabi):
     elif osabi == 'ELFOSABI_SOLARIS':
         d_tag.update(E.ENUM_D_TAG_SOLARIS)
     dctx = S.Rec(d_tag=S.CodeV, d_val=U(W * 8))
-    L['Elf_Dyn'] = ('struct', [('d_tag', enum(sxword, d_tag)), ('d_val', xword),
+    # a value that the machine / OS specific table and the common table both name (the common table holds range markers such
+    # as DT_LOOS and other vendors' tags in the OS-specific range) is reported under the name of the SPECIFIC table
+    specific = E.ENUMMAP_EXTRA_D_TAG_MACHINE.get(e_machine) or (E.ENUM_D_TAG_SOLARIS if osabi == 'ELFOSABI_SOLARIS' else {})
+    prefer = {v: n for n, v in specific.items() if n != '_default_'}
+    L['Elf_Dyn'] = ('struct', [('d_tag', enum(sxword, d_tag) + (prefer,)), ('d_val', xword),
                                ('d_ptr', ('value', FnSpec("ctx['d_val']", shapes=dict(ctx=dctx))))])
 
     st_info = ('bits', [('bind', 4, ('enum', None, E.ENUM_ST_INFO_BIND, True), False, False),
